@@ -12,6 +12,7 @@ class Recorder:
     def __init__(self):
         self.sha256 = {}      # bytes -> bytes
         self.hmac512 = {}     # (key, msg) -> bytes
+        self.hmac_order = []  # (key, msg) in call order
         self.pbkdf2 = {}      # (name, pw, salt, rounds, dklen) -> bytes
         self.nfkd = {}        # (form, str) -> str
         self.h160 = {}        # bytes -> bytes (repository hash160 = ripemd160(sha256(x)))
@@ -79,6 +80,7 @@ class Recorder:
                 if d is None:
                     d = _hmac.new(key=self.key, msg=self.msg, digestmod=self.digestmod).digest()
                 rec.hmac512[(self.key, self.msg)] = d
+                rec.hmac_order.append((self.key, self.msg))
                 return d
 
         class P:
